@@ -21,7 +21,7 @@ import (
 func init() {
 	Register(&Spec{
 		ID: "C13", Level: "exploration",
-		Rule:          "cases = chains of the all-modules director (all ten workloads incl. their parameter changes, same-block create/claim/adjust/destroy/pause/kill coincidences, farm pools destroyed in the block they fall due and then staked into and adjusted, the farm queue read after every transaction); the last four cases of each tier run the dedicated service / htlc / farm / random directors and keep only their queue-against-object and due-height relations with block times advancing by arbitrary positive steps (1 s .. days) plus bursts that put many hash-locked contracts and random requests due at one height; the application's own begin/end blockers run inside recover() wrappers; after every block the raw time-queue families (htlc expiry queue, farm active-pool queue, service new-batch/expired-batch queues with their height markers and active-request markers, random request queue) are walked against the object stores. non-trivial = a block whose blockers ran and whose queues were walked with due items present; distinct = distinct (queue family, #items due class, coincidence kinds in the block, time-step class)",
+		Rule:          "cases = chains of the all-modules director (all ten workloads incl. their parameter changes, same-block create/claim/adjust/destroy/pause/kill coincidences, farm pools destroyed in the block they fall due and then staked into and adjusted, the farm queue read after every transaction); the last four cases of each tier run the dedicated service / htlc / farm / random directors and keep only their queue-against-object and due-height relations with block times advancing by arbitrary positive steps (1 s .. days) plus bursts that put many hash-locked contracts and random requests due at one height; the application's own begin/end blockers run inside recover() wrappers; after every block the raw time-queue families (htlc expiry queue, farm active-pool queue, service new-batch/expired-batch queues with their height markers and active-request markers, random request queue) are walked against the object stores. non-trivial = a block whose blockers ran and whose queues were walked with due items present; distinct = distinct (queue family, #items due class, coincidence kinds in the block, time-step class); since round 12: aborts judged before transaction results are read, aborts on borrowed directors' chains through rig.AbortHook",
 		Assume:        []string{"exactly-once processing at the due height is judged item by item by the module properties' own models (C03, C06, C08, C18); C13 adds the cross-module chain, the abort recorder and the queue-object bijection", "third-party coin transfers into module escrow accounts are not generated on shared chains"},
 		Cases:         func(t string) int { return tierN(t, 12, 48) + bpDedicated },
 		Run:           runBlockProc,
